@@ -174,7 +174,7 @@ def get_input_stream(
 
     # A WSGI server can set this to indicate that it terminates the input stream. In
     # that case the stream is safe without wrapping, or can enforce a max length.
-    if "wsgi.input_terminated" in environ:
+    if environ.get("wsgi.input_terminated"):
         if max_content_length is not None:
             # If this is moved above, it can cause the stream to hang if a read attempt
             # is made when the client sends no data. For example, the development server
